@@ -287,7 +287,11 @@ Deliver(dec, d, r) ==
         [dec |-> [dec EXCEPT !.cnt = c, !.accs = x.accs],
          out |-> [kind |-> "msg", slot |-> slot.name, idx |-> c[slot.name], m |-> m, msg |-> msg, skip |-> x.r.skip, raw |-> x.raw]]
     ELSE
-        [dec |-> [dec EXCEPT !.single = Put(@, slot.name, [m |-> m, msg |-> msg, skip |-> x.r.skip]), !.accs = x.accs],
+        [dec |-> [dec EXCEPT !.single = Put(@, slot.name, [m |-> m, msg |-> msg, skip |-> x.r.skip,
+                                                          earlier |-> IF slot.name \in DOMAIN dec.single
+                                                                      THEN Append(dec.single[slot.name].earlier, dec.single[slot.name].msg)
+                                                                      ELSE << >>]),
+                              !.accs = x.accs],
          out |-> [kind |-> "single", slot |-> slot.name, m |-> m, msg |-> msg, skip |-> x.r.skip, raw |-> x.raw]]
 
 \* one protocol unit
